@@ -1,15 +1,33 @@
 /*
  * bmload -- loads the allocation bitmaps of an image with ext2fs_rw_bitmaps(fs, BLOCK|INODE, n) for a list
- * of thread counts and compares every result (all block bits, all inode bits, the tail-problem bits of fs->flags)
- * with the single-threaded load of the same image.
+ * of thread counts and compares every outcome (returned error code, presence of fs->block_map / fs->inode_map
+ * after the call, all block bits, all inode bits, the tail-problem bits of fs->flags) with the single-threaded
+ * load of the same image.
  *
- *   bmload <image> <trace file> <n,n,...> <repetitions> [badtail=<group>]
+ *   bmload <image> <trace file> <n,n,...> <repetitions> [badtail=<group>] [damage=<kind>:<group>]...
  *
  * The filesystem is opened with EXT2_FLAG_THREADS, so the channel carries CHANNEL_FLAGS_THREADS.  One ndjson line
  * {"e":"Load",...} is appended to <trace file> before each load and one {"e":"Done",...} after it; hook H3 inside
  * rw_bitmaps.c (environment variable VERIF_TRACE, set by the caller to the same file) appends the ThStart / Enter /
- * Leave / ThEnd events in between.  badtail=<g> clears the padding bits of group g's block bitmap block in the
- * image first, which makes the loader set EXT2_FLAG_BBITMAP_TAIL_PROBLEM.
+ * Leave / ThEnd events in between.
+ *
+ * badtail=<g> clears the padding bits of group g's block bitmap block in the image first, which makes the loader
+ * set EXT2_FLAG_BBITMAP_TAIL_PROBLEM.
+ *
+ * damage=<kind>:<g> (up to 4) makes a bitmap of group g unloadable; the group's BLOCK_UNINIT / INODE_UNINIT flags are
+ * cleared first (and its bitmaps written out) so that the loader really reads them:
+ *   bcsum | icsum   one bit of the block / inode bitmap block is flipped on disk: with metadata_csum the checksum no
+ *                   longer matches (EXT2_ET_*_BITMAP_CSUM_INVALID); without it the load succeeds with that bit
+ *   brd | ird       reading the block / inode bitmap block fails with EIO (a pass-through I/O manager around
+ *                   unix_io_manager refuses exactly that block): EXT2_ET_*_BITMAP_READ
+ *   trunc           the image file is cut right before the first bitmap block of group g: every bitmap block
+ *                   behind the cut is a short read (EXT2_ET_*_BITMAP_READ)
+ * The Load line carries "fail": [[group, kind, class], ...], the bitmaps that cannot be loaded (kind 0 = block,
+ * 1 = inode; class 1 = BLOCK_BITMAP_READ, 2 = BLOCK_BITMAP_CSUM_INVALID, 3 = INODE_BITMAP_READ,
+ * 4 = INODE_BITMAP_CSUM_INVALID), derived from the damage and the loader's documented rule for skipping a bitmap
+ * (group flagged *_UNINIT under a valid group descriptor checksum, or location outside the filesystem).
+ * The Done line: rv (0/1), rc (class of the returned error, 9 = anything else), bm / im (fs->block_map /
+ * fs->inode_map present after the call), same_rc / same_b / same_i / same_f (equal to the single-threaded load).
  */
 #define _GNU_SOURCE
 #include <stdio.h>
@@ -17,8 +35,14 @@
 #include <string.h>
 #include <fcntl.h>
 #include <unistd.h>
+#include <errno.h>
+#include <sys/wait.h>
 #include "ext2fs/ext2_fs.h"
 #include "ext2fs/ext2fs.h"
+
+#define TAILBITS (EXT2_FLAG_BBITMAP_TAIL_PROBLEM | EXT2_FLAG_IBITMAP_TAIL_PROBLEM)
+#define MAXDMG 4
+#define MAXFAIL 256
 
 static int tfd = -1;
 
@@ -30,27 +54,114 @@ static void emit(const char *s)
 	}
 }
 
+/* ---- pass-through I/O manager that refuses to read chosen blocks (stateless after open: thread-safe) ---- */
+static struct struct_io_manager rf_mgr;
+static io_channel rf_real;
+static unsigned long long rf_blocks[MAXDMG];
+static int rf_n;
+
+static void rf_sync(io_channel c)
+{
+	c->block_size = rf_real->block_size;
+	c->flags = rf_real->flags;
+	c->align = rf_real->align;
+}
+static errcode_t rf_open(const char *name, int flags, io_channel *channel)
+{
+	io_channel io;
+	errcode_t rc = unix_io_manager->open(name, flags, &rf_real);
+	if (rc)
+		return rc;
+	io = calloc(1, sizeof(*io));
+	io->magic = EXT2_ET_MAGIC_IO_CHANNEL;
+	io->manager = &rf_mgr;
+	io->name = strdup(name);
+	io->refcount = 1;
+	rf_sync(io);
+	*channel = io;
+	return 0;
+}
+static errcode_t rf_close(io_channel c)
+{
+	errcode_t rc;
+	if (--c->refcount > 0)
+		return 0;
+	rc = io_channel_close(rf_real);
+	free(c->name);
+	free(c);
+	return rc;
+}
+static errcode_t rf_set_blksize(io_channel c, int bs) { errcode_t rc = io_channel_set_blksize(rf_real, bs); rf_sync(c); return rc; }
+static errcode_t rf_read64(io_channel c, unsigned long long b, int n, void *d)
+{
+	int i;
+	(void) c;
+	for (i = 0; i < rf_n; i++)
+		if (n > 0 ? (rf_blocks[i] >= b && rf_blocks[i] < b + n) : rf_blocks[i] == b)
+			return EIO;
+	return io_channel_read_blk64(rf_real, b, n, d);
+}
+static errcode_t rf_write64(io_channel c, unsigned long long b, int n, const void *d) { (void) c; return io_channel_write_blk64(rf_real, b, n, d); }
+static errcode_t rf_read(io_channel c, unsigned long b, int n, void *d) { return rf_read64(c, b, n, d); }
+static errcode_t rf_write(io_channel c, unsigned long b, int n, const void *d) { return rf_write64(c, b, n, d); }
+static errcode_t rf_flush(io_channel c) { (void) c; return io_channel_flush(rf_real); }
+static errcode_t rf_option(io_channel c, const char *o, const char *a)
+{
+	errcode_t rc = rf_real->manager->set_option(rf_real, o, a);
+	rf_sync(c);
+	return rc;
+}
+static errcode_t rf_stats(io_channel c, io_stats *s) { (void) c; return rf_real->manager->get_stats(rf_real, s); }
+static errcode_t rf_readahead(io_channel c, unsigned long long b, unsigned long long n) { (void) c; return io_channel_cache_readahead(rf_real, b, n); }
+static void rf_init(void)
+{
+	memset(&rf_mgr, 0, sizeof(rf_mgr));
+	rf_mgr.magic = EXT2_ET_MAGIC_IO_MANAGER;
+	rf_mgr.name = "verif read-refusing pass-through";
+	rf_mgr.open = rf_open; rf_mgr.close = rf_close; rf_mgr.set_blksize = rf_set_blksize;
+	rf_mgr.read_blk = rf_read; rf_mgr.write_blk = rf_write; rf_mgr.flush = rf_flush;
+	rf_mgr.set_option = rf_option; rf_mgr.get_stats = rf_stats;
+	rf_mgr.read_blk64 = rf_read64; rf_mgr.write_blk64 = rf_write64; rf_mgr.cache_readahead = rf_readahead;
+}
+
+/* ---- outcome of one load ---- */
 struct snap {
 	unsigned char *b, *i;
 	unsigned long long nb;
 	unsigned long ni;
-	int flags;
+	int flags, rc, bm, im;
 };
 
-static void take(ext2_filsys fs, struct snap *s)
+static int rc_class(errcode_t rc)
+{
+	if (!rc) return 0;
+	if (rc == EXT2_ET_BLOCK_BITMAP_READ) return 1;
+	if (rc == EXT2_ET_BLOCK_BITMAP_CSUM_INVALID) return 2;
+	if (rc == EXT2_ET_INODE_BITMAP_READ) return 3;
+	if (rc == EXT2_ET_INODE_BITMAP_CSUM_INVALID) return 4;
+	return 9;
+}
+
+static void take(ext2_filsys fs, errcode_t rc, struct snap *s)
 {
 	unsigned long long blk, first = fs->super->s_first_data_block, cnt = ext2fs_blocks_count(fs->super);
 	unsigned long ino;
 
+	memset(s, 0, sizeof(*s));
+	s->rc = rc_class(rc);
+	s->bm = fs->block_map != NULL;
+	s->im = fs->inode_map != NULL;
 	s->nb = cnt - first;
 	s->ni = fs->super->s_inodes_count;
 	s->b = calloc(1, s->nb + 1);
 	s->i = calloc(1, s->ni + 1);
-	for (blk = first; blk < cnt; blk++)
-		s->b[blk - first] = ext2fs_test_block_bitmap2(fs->block_map, blk) ? 1 : 0;
-	for (ino = 1; ino <= s->ni; ino++)
-		s->i[ino - 1] = ext2fs_test_inode_bitmap2(fs->inode_map, ino) ? 1 : 0;
-	s->flags = fs->flags & (EXT2_FLAG_BBITMAP_TAIL_PROBLEM | EXT2_FLAG_IBITMAP_TAIL_PROBLEM);
+	if (s->bm)
+		for (blk = first; blk < cnt; blk++)
+			s->b[blk - first] = ext2fs_test_block_bitmap2(fs->block_map, blk) ? 1 : 0;
+	if (s->im)
+		for (ino = 1; ino <= s->ni; ino++)
+			s->i[ino - 1] = ext2fs_test_inode_bitmap2(fs->inode_map, ino) ? 1 : 0;
+	s->flags = fs->flags & TAILBITS;
 }
 
 static void drop(struct snap *s)
@@ -59,85 +170,215 @@ static void drop(struct snap *s)
 	free(s->i);
 }
 
+/* the loader skips a bitmap (treats it as all-zero) under this rule: rw_bitmaps.c, read_bitmaps_range_start() */
+static int is_read(ext2_filsys fs, dgrp_t g, int kind)
+{
+	blk64_t blk = kind ? ext2fs_inode_bitmap_loc(fs, g) : ext2fs_block_bitmap_loc(fs, g);
+	if (ext2fs_has_group_desc_csum(fs) &&
+	    ext2fs_bg_flags_test(fs, g, kind ? EXT2_BG_INODE_UNINIT : EXT2_BG_BLOCK_UNINIT) &&
+	    ext2fs_group_desc_csum_verify(fs, g))
+		return 0;
+	return blk != 0 && blk < ext2fs_blocks_count(fs->super);
+}
+
+struct dmg { char kind[8]; int g; };
+
 int main(int argc, char **argv)
 {
 	ext2_filsys fs;
 	errcode_t rc;
 	struct snap ref, cur;
-	char line[512], *p, *list;
-	int reps, r, n, bad = -1, status = 0;
+	char line[8192], failtxt[6144], *p, *list;
+	int reps, r, n, bad = -1, status = 0, a, nd = 0, i, nfail = 0;
+	struct dmg dm[MAXDMG];
+	int fail[MAXFAIL][3];
+	long long cut = -1;		/* image cut at this block (trunc) */
+	io_manager mgr = unix_io_manager;
 
 	if (argc < 5) {
-		fprintf(stderr, "usage: bmload image trace n,n,... reps [badtail=g]\n");
+		fprintf(stderr, "usage: bmload image trace n,n,... reps [badtail=g] [damage=kind:g]...\n");
 		return 2;
 	}
 	reps = atoi(argv[4]);
-	if (argc > 5 && !strncmp(argv[5], "badtail=", 8))
-		bad = atoi(argv[5] + 8);
+	for (a = 5; a < argc; a++) {
+		if (!strncmp(argv[a], "badtail=", 8))
+			bad = atoi(argv[a] + 8);
+		else if (!strncmp(argv[a], "damage=", 7) && nd < MAXDMG) {
+			if (sscanf(argv[a] + 7, "%7[a-z]:%d", dm[nd].kind, &dm[nd].g) != 2) {
+				fprintf(stderr, "bmload: bad damage argument %s\n", argv[a]);
+				return 2;
+			}
+			nd++;
+		} else {
+			fprintf(stderr, "bmload: bad argument %s\n", argv[a]);
+			return 2;
+		}
+	}
 	tfd = open(argv[2], O_WRONLY | O_CREAT | O_APPEND, 0644);
 	if (tfd < 0) {
 		perror(argv[2]);
 		return 3;
 	}
-	if (bad >= 0) {
-		/* clear the padding at the end of group `bad`'s block bitmap block */
-		unsigned char z[8] = { 0 };
+	if (nd) {
+		/* the damaged groups get initialized bitmaps on disk; done in a child without VERIF_TRACE so that hook H3
+		 * (which reads the variable once per process) logs nothing for this preparatory load */
+		pid_t pid = fork();
+		int st = 0;
+		if (pid < 0) { perror("bmload: fork"); return 3; }
+		if (pid == 0) {
+			unsetenv("VERIF_TRACE");
+			rc = ext2fs_open2(argv[1], NULL, EXT2_FLAG_64BITS | EXT2_FLAG_RW, 0, 0, unix_io_manager, &fs);
+			if (rc) { fprintf(stderr, "bmload: open rw %ld\n", (long) rc); _exit(3); }
+			rc = ext2fs_read_bitmaps(fs);
+			if (rc) { fprintf(stderr, "bmload: read bitmaps (preparation) %ld\n", (long) rc); _exit(3); }
+			for (i = 0; i < nd; i++) {
+				if (dm[i].g < 0 || (unsigned) dm[i].g >= fs->group_desc_count) { fprintf(stderr, "bmload: no such group\n"); _exit(3); }
+				ext2fs_bg_flags_clear(fs, dm[i].g, EXT2_BG_BLOCK_UNINIT | EXT2_BG_INODE_UNINIT);
+				ext2fs_group_desc_csum_set(fs, dm[i].g);
+			}
+			ext2fs_mark_bb_dirty(fs);
+			ext2fs_mark_ib_dirty(fs);
+			ext2fs_mark_super_dirty(fs);
+			rc = ext2fs_close_free(&fs);
+			if (rc) { fprintf(stderr, "bmload: close (preparation) %ld\n", (long) rc); _exit(3); }
+			_exit(0);
+		}
+		if (waitpid(pid, &st, 0) != pid || !WIFEXITED(st) || WEXITSTATUS(st) != 0) {
+			fprintf(stderr, "bmload: preparation of the damaged groups failed\n");
+			return 3;
+		}
+	}
+	if (bad >= 0 || nd) {
+		unsigned char z[8] = { 0 }, c;
 		blk64_t loc;
-		int fd;
+		int fd, k, csum;
+		dgrp_t g;
+
 		rc = ext2fs_open2(argv[1], NULL, EXT2_FLAG_64BITS, 0, 0, unix_io_manager, &fs);
 		if (rc) { fprintf(stderr, "bmload: open %ld\n", (long) rc); return 3; }
-		if ((unsigned) bad >= fs->group_desc_count) { fprintf(stderr, "bmload: no such group\n"); return 3; }
-		loc = ext2fs_block_bitmap_loc(fs, bad);
-		fd = open(argv[1], O_WRONLY);
-		if (fd < 0 || pwrite(fd, z, 8, (off_t) loc * fs->blocksize + fs->blocksize - 8) != 8) { perror("badtail"); return 3; }
+		csum = ext2fs_has_feature_metadata_csum(fs->super);
+		fd = open(argv[1], O_RDWR);
+		if (fd < 0) { perror("bmload: image"); return 3; }
+		if (bad >= 0) {
+			/* clear the padding at the end of group `bad`'s block bitmap block */
+			if ((unsigned) bad >= fs->group_desc_count) { fprintf(stderr, "bmload: no such group\n"); return 3; }
+			loc = ext2fs_block_bitmap_loc(fs, bad);
+			if (pwrite(fd, z, 8, (off_t) loc * fs->blocksize + fs->blocksize - 8) != 8) { perror("badtail"); return 3; }
+		}
+		for (i = 0; i < nd; i++) {
+			k = (dm[i].kind[0] == 'i');
+			loc = k ? ext2fs_inode_bitmap_loc(fs, dm[i].g) : ext2fs_block_bitmap_loc(fs, dm[i].g);
+			if (!strcmp(dm[i].kind, "bcsum") || !strcmp(dm[i].kind, "icsum")) {
+				off_t off = (off_t) loc * fs->blocksize + 1;
+				if (!is_read(fs, dm[i].g, k)) { fprintf(stderr, "bmload: bitmap to damage is not read by the loader\n"); return 3; }
+				if (pread(fd, &c, 1, off) != 1) { perror("bmload: pread"); return 3; }
+				c ^= 0x10;
+				if (pwrite(fd, &c, 1, off) != 1) { perror("bmload: pwrite"); return 3; }
+				if (csum && nfail < MAXFAIL) {
+					fail[nfail][0] = dm[i].g; fail[nfail][1] = k; fail[nfail][2] = k ? 4 : 2; nfail++;
+				}
+			} else if (!strcmp(dm[i].kind, "brd") || !strcmp(dm[i].kind, "ird")) {
+				if (!is_read(fs, dm[i].g, k)) { fprintf(stderr, "bmload: bitmap to damage is not read by the loader\n"); return 3; }
+				rf_blocks[rf_n++] = loc;
+				if (nfail < MAXFAIL) {
+					fail[nfail][0] = dm[i].g; fail[nfail][1] = k; fail[nfail][2] = k ? 3 : 1; nfail++;
+				}
+			} else if (!strcmp(dm[i].kind, "trunc")) {
+				blk64_t b0 = ext2fs_block_bitmap_loc(fs, dm[i].g), b1 = ext2fs_inode_bitmap_loc(fs, dm[i].g);
+				long long at = (long long) (b0 < b1 ? b0 : b1);
+				if (cut < 0 || at < cut)
+					cut = at;
+			} else {
+				fprintf(stderr, "bmload: unknown damage kind %s\n", dm[i].kind);
+				return 2;
+			}
+		}
+		if (cut >= 0) {
+			if (ftruncate(fd, (off_t) cut * fs->blocksize)) { perror("bmload: ftruncate"); return 3; }
+			for (g = 0; g < fs->group_desc_count; g++)
+				for (k = 0; k < 2; k++) {
+					loc = k ? ext2fs_inode_bitmap_loc(fs, g) : ext2fs_block_bitmap_loc(fs, g);
+					if ((long long) loc >= cut && is_read(fs, g, k) && nfail < MAXFAIL) {
+						int j, dup = 0;
+						for (j = 0; j < nfail; j++)
+							if (fail[j][0] == (int) g && fail[j][1] == k)
+								dup = 1;	/* the earlier cause (checksum is verified after the read: the read error wins) */
+						if (dup) {
+							for (j = 0; j < nfail; j++)
+								if (fail[j][0] == (int) g && fail[j][1] == k)
+									fail[j][2] = k ? 3 : 1;
+						} else {
+							fail[nfail][0] = g; fail[nfail][1] = k; fail[nfail][2] = k ? 3 : 1; nfail++;
+						}
+					}
+				}
+		}
+		/* a refused read beats a checksum damage of the same bitmap */
+		for (i = 0; i < nfail; i++) {
+			int j;
+			for (j = i + 1; j < nfail; j++)
+				if (fail[j][0] == fail[i][0] && fail[j][1] == fail[i][1]) {
+					if (fail[j][2] == 1 || fail[j][2] == 3)
+						fail[i][2] = fail[j][2];
+					memmove(&fail[j], &fail[j + 1], (nfail - j - 1) * sizeof(fail[0]));
+					nfail--; j--;
+				}
+		}
 		close(fd);
 		ext2fs_close_free(&fs);
 	}
-	rc = ext2fs_open2(argv[1], NULL, EXT2_FLAG_64BITS | EXT2_FLAG_THREADS, 0, 0, unix_io_manager, &fs);
+	if (rf_n) {
+		rf_init();
+		mgr = &rf_mgr;
+	}
+	p = failtxt;
+	p += sprintf(p, "[");
+	for (i = 0; i < nfail; i++)
+		p += sprintf(p, "%s[%d,%d,%d]", i ? "," : "", fail[i][0], fail[i][1], fail[i][2]);
+	sprintf(p, "]");
+
+	rc = ext2fs_open2(argv[1], NULL, EXT2_FLAG_64BITS | EXT2_FLAG_THREADS, 0, 0, mgr, &fs);
 	if (rc) {
 		fprintf(stderr, "bmload: open %ld\n", (long) rc);
 		return 3;
 	}
 	/* reference: the sequential path */
-	snprintf(line, sizeof(line), "{\"e\":\"Load\",\"G\":%u,\"nreq\":1,\"flex\":%u,\"hasflex\":%d,\"chthr\":%d,\"kinds\":2}\n",
+	snprintf(line, sizeof(line), "{\"e\":\"Load\",\"G\":%u,\"nreq\":1,\"flex\":%u,\"hasflex\":%d,\"chthr\":%d,\"kinds\":2,\"fail\":%s}\n",
 		 fs->group_desc_count, 1U << fs->super->s_log_groups_per_flex, ext2fs_has_feature_flex_bg(fs->super) ? 1 : 0,
-		 (fs->io->flags & CHANNEL_FLAGS_THREADS) ? 1 : 0);
+		 (fs->io->flags & CHANNEL_FLAGS_THREADS) ? 1 : 0, failtxt);
 	emit(line);
+	fs->flags &= ~TAILBITS;
 	rc = ext2fs_rw_bitmaps(fs, (EXT2FS_BITMAPS_BLOCK | EXT2FS_BITMAPS_INODE), 1);
-	if (rc) {
-		fprintf(stderr, "bmload: single-threaded load failed %ld\n", (long) rc);
+	if (rc && !nd) {
+		fprintf(stderr, "bmload: single-threaded load of an undamaged image failed %ld\n", (long) rc);
 		return 3;
 	}
-	take(fs, &ref);
-	snprintf(line, sizeof(line), "{\"e\":\"Done\",\"rv\":0,\"same_b\":1,\"same_i\":1,\"same_f\":1,\"tail\":%d}\n", ref.flags ? 1 : 0);
+	take(fs, rc, &ref);
+	snprintf(line, sizeof(line), "{\"e\":\"Done\",\"rv\":%d,\"rc\":%d,\"bm\":%d,\"im\":%d,\"same_rc\":1,\"same_b\":1,\"same_i\":1,\"same_f\":1,\"tail\":%d}\n",
+		 rc ? 1 : 0, ref.rc, ref.bm, ref.im, ref.flags ? 1 : 0);
 	emit(line);
 
 	list = strdup(argv[3]);
 	for (r = 0; r < reps; r++) {
 		strcpy(list, argv[3]);
 		for (p = strtok(list, ","); p; p = strtok(NULL, ",")) {
-			int sb, si, sf;
+			int sb, si, sf, sr;
 			n = atoi(p);
-			fs->flags &= ~(EXT2_FLAG_BBITMAP_TAIL_PROBLEM | EXT2_FLAG_IBITMAP_TAIL_PROBLEM);
-			snprintf(line, sizeof(line), "{\"e\":\"Load\",\"G\":%u,\"nreq\":%d,\"flex\":%u,\"hasflex\":%d,\"chthr\":%d,\"kinds\":2}\n",
+			fs->flags &= ~TAILBITS;
+			snprintf(line, sizeof(line), "{\"e\":\"Load\",\"G\":%u,\"nreq\":%d,\"flex\":%u,\"hasflex\":%d,\"chthr\":%d,\"kinds\":2,\"fail\":%s}\n",
 				 fs->group_desc_count, n, 1U << fs->super->s_log_groups_per_flex,
-				 ext2fs_has_feature_flex_bg(fs->super) ? 1 : 0, (fs->io->flags & CHANNEL_FLAGS_THREADS) ? 1 : 0);
+				 ext2fs_has_feature_flex_bg(fs->super) ? 1 : 0, (fs->io->flags & CHANNEL_FLAGS_THREADS) ? 1 : 0, failtxt);
 			emit(line);
 			rc = ext2fs_rw_bitmaps(fs, (EXT2FS_BITMAPS_BLOCK | EXT2FS_BITMAPS_INODE), n);
-			if (rc) {
-				snprintf(line, sizeof(line), "{\"e\":\"Done\",\"rv\":1,\"same_b\":0,\"same_i\":0,\"same_f\":0,\"tail\":0}\n");
-				emit(line);
-				status = 1;
-				continue;
-			}
-			take(fs, &cur);
-			sb = cur.nb == ref.nb && !memcmp(cur.b, ref.b, ref.nb);
-			si = cur.ni == ref.ni && !memcmp(cur.i, ref.i, ref.ni);
+			take(fs, rc, &cur);
+			sr = cur.rc == ref.rc;
+			sb = cur.bm == ref.bm && cur.nb == ref.nb && !memcmp(cur.b, ref.b, ref.nb);
+			si = cur.im == ref.im && cur.ni == ref.ni && !memcmp(cur.i, ref.i, ref.ni);
 			sf = cur.flags == ref.flags;
-			snprintf(line, sizeof(line), "{\"e\":\"Done\",\"rv\":0,\"same_b\":%d,\"same_i\":%d,\"same_f\":%d,\"tail\":%d}\n",
-				 sb, si, sf, cur.flags ? 1 : 0);
+			snprintf(line, sizeof(line), "{\"e\":\"Done\",\"rv\":%d,\"rc\":%d,\"bm\":%d,\"im\":%d,\"same_rc\":%d,\"same_b\":%d,\"same_i\":%d,\"same_f\":%d,\"tail\":%d}\n",
+				 rc ? 1 : 0, cur.rc, cur.bm, cur.im, sr, sb, si, sf, cur.flags ? 1 : 0);
 			emit(line);
-			if (!sb || !si || !sf)
+			if (!sr || !sb || !si || !sf)
 				status = 1;
 			drop(&cur);
 		}
